@@ -27,7 +27,11 @@ func (ct *CommonTag) render(name string, p *renderState, wr *bytes.Buffer) error
 		attrs = `{{ __attrs `
 		for _, attr := range ct.Attrs {
 			if attr.MustEscape {
-				attrs += fmt.Sprintf(`(__attr %q %s %t) `, attr.Name, p.JsExpr(attr.Val, false, false), attr.MustEscape)
+				val := p.JsExpr(attr.Val, false, false)
+				if val == "" {
+					val = "null" // a literal null renders to nothing; the attribute is omitted like any other null value
+				}
+				attrs += fmt.Sprintf(`(__attr %q %s %t) `, attr.Name, val, attr.MustEscape)
 			} else {
 				attrs += fmt.Sprintf(`(__attr %q %q %t) `, attr.Name, p.JsExpr(attr.Val, false, false), attr.MustEscape)
 			}
